@@ -700,6 +700,41 @@ func genC20(e *emitter) {
 	fmt.Fprintf(&b, "/-- `saveTimer.Reset(d)` in eventLoop (all %d sites agree, else 0), milliseconds -/\ndef recorderSaveDelayMillis : Nat := %d\n", nResets, saveDelayNs/1000000)
 	fmt.Fprintf(&b, "/-- statements of the `case <-saveTimer.C:` arm of eventLoop (go/printer, whitespace-normalised) -/\ndef recorderSaveCaseSrc : List Char := %s.toList\n\n", leanStr(saveCase))
 
+	// command-line options defined by the recorder package itself (flag.<Kind>("name", default, usage)):
+	// the check drives each of them away from its default (generator input only, not a judge parameter)
+	type flagT struct {
+		Name string `json:"name"`
+		Kind string `json:"kind"`
+	}
+	var recFlags []flagT
+	for _, fn := range []string{"eventmon/eventrecorder"} {
+		fp := e.pkg(fn)
+		for _, f := range fp.files {
+			ast.Inspect(f, func(n ast.Node) bool {
+				ce, ok := n.(*ast.CallExpr)
+				if !ok || len(ce.Args) < 2 {
+					return true
+				}
+				nm := c20CallName(ce)
+				if !strings.HasPrefix(nm, "flag.") {
+					return true
+				}
+				kind := strings.TrimSuffix(strings.TrimPrefix(nm, "flag."), "Var")
+				idx := 0
+				if strings.HasSuffix(nm, "Var") {
+					idx = 1
+				}
+				if idx < len(ce.Args) {
+					if name, ok := fp.evalStr(ce.Args[idx]); ok {
+						recFlags = append(recFlags, flagT{Name: name, Kind: kind})
+					}
+				}
+				return true
+			})
+		}
+	}
+	sort.Slice(recFlags, func(i, j int) bool { return recFlags[i].Name < recFlags[j].Name })
+
 	// vocabulary of proto/eventmon
 	var names []string
 	for n := range pe.consts {
@@ -760,7 +795,7 @@ func genC20(e *emitter) {
 	b.WriteString("]\n\nend KM.Gen\n")
 	e.lean("Events.lean", b.String())
 	e.facts["c20"] = map[string]interface{}{
-		"notifier_chan_cap": chanCap, "save_delay_ms": saveDelayNs / 1000000, "save_case_src": saveCase, "load_retention_s": loadNs / 1000000000, "expire_retention_s": expNs / 1000000000,
+		"notifier_chan_cap": chanCap, "recorder_flags": recFlags, "save_delay_ms": saveDelayNs / 1000000, "save_case_src": saveCase, "load_retention_s": loadNs / 1000000000, "expire_retention_s": expNs / 1000000000,
 		"eventmon": strs, "sends": sends, "locks": locks, "signing_funcs": sn, "issue_sites": sites,
 	}
 }
